@@ -184,7 +184,11 @@ def dbLine (st : DBRun) (lineNo : Nat) (line : String) : Except String (DBRun ×
           let b := if get "openpure" == "1" then [] else [s!"PROPFAIL C03 open_pure {tag}"]
           let want := joinWith "," (post.secrets.toList.map fun (n, s) => s!"{hexStr n}:{s.latest + 1}")
           let c := if get "next" == want then [] else [s!"PROPFAIL C03 next_version {tag} next={get "next"} want={want}"]
-          a ++ b ++ c
+          -- the state implied by the operations that reported success (the specification's,
+          -- whenever the code acknowledged the specified result) is what a restart must find
+          let d := if showRes mres == get "res" && parseMem ro != some (memOf mkv) then
+              [s!"PROPFAIL C03 acknowledged_survives {tag} op={get "op"} n={get "n"} res={get "res"} reopen={ro} spec={showState mkv}"] else []
+          a ++ b ++ c ++ d
       let key := s!"{get "op"}:{resClass res}:c{if (get "c") == "0" then "su" else "r"}:a{get "aok"}s{get "sok"}:{if stateEq o.post o.pre then "same" else "chg"}"
       let st' := { st with cur := post, steps := st.steps + 1,
                            fails := st.fails + failed.length + c03.length + out0.length,
